@@ -277,15 +277,18 @@ SESSION_STREAMS = {
 def session_worker(args):
     name, cuts, delays, ext = args[:4]
     mirror = len(args) > 4 and args[4]  # 'local-as auto': our OPEN is sent after the peer's
-    max_size = 65535 if ext else 4096
+    # ext: True (both sides), False (ours by default, not the peer), 'ours' (asked for here, not by the peer),
+    # 'theirs' (disabled here, advertised by the peer): RFC 8654 - 65535 only when both advertised it
+    max_size = 65535 if ext is True else 4096
     a = alphabet(max_size)
     parts = [a[n] for n in SESSION_STREAMS[name]]
     stream = b''.join(parts)
-    cfg = edev.base_config(hold=30, caps='extended-message enable;' if ext else '', apiopts='receive { parsed; update; }')
+    caps = {True: 'extended-message enable;', False: '', 'ours': 'extended-message enable;', 'theirs': 'extended-message disable;'}[ext]
+    cfg = edev.base_config(hold=30, caps=caps, apiopts='receive { parsed; update; }')
     if mirror:
         cfg = cfg.replace('local-as 65001;', 'local-as auto;')
     with World(cfg) as w:
-        env = c05.Env(w, hold=30, script=[], config_name='active', remote_opts={'ext_msg': ext})
+        env = c05.Env(w, hold=30, script=[], config_name='active', remote_opts={'ext_msg': ext in (True, 'theirs')})
         if mirror:
             for i in range(6):
                 env.step = i
@@ -338,7 +341,7 @@ def run(ctx: core.Ctx) -> None:
     nmsgs = 2
     cuts = 2 if not thorough else 3
     ctx.rule = (f'A: every stream of <= {nmsgs} messages over a {len(alphabet(4096))}-message alphabet (7 valid, 13 header faults) x every segmentation with <= {cuts} cuts at header/body-boundary offsets '
-                f'+ uniform chunks 1..32 + coalesced, max size 4096 and 65535, through reader_async() and reader(); B: {len(SESSION_STREAMS)} streams x <= {2 if not thorough else 3} cuts x delay vectors over {{0, 0.15 s}} into an ESTABLISHED session; '
+                f'+ uniform chunks 1..32 + coalesced, max size 4096 and 65535, through reader_async() and reader(); B: {len(SESSION_STREAMS)} streams x <= {2 if not thorough else 3} cuts x delay vectors over {{0, 0.15 s}} into an ESTABLISHED session (extended messages on both sides, on neither, and on one side only; our OPEN first or second); '
                 'non-trivial = segmented (at least one cut)')
     ctx.assumptions += ['reference framer vt/ref/wire.split_stream', 'a read returns at most one queued segment']
     pool = mp.Pool(min(16, os.cpu_count() or 1))
@@ -375,6 +378,14 @@ def run(ctx: core.Ctx) -> None:
                             bjobs.append((name, c, delays, ext, False))
                             if k <= 1 and not any(delays):
                                 bjobs.append((name, c, delays, ext, True))
+        # extended messages advertised by one side only: the limit stays 4096
+        for name in ('KA+LENMAX+1', 'UPDMAX+KA', 'KA+UPD60'):
+            ps = [a[n] for n in SESSION_STREAMS[name]]
+            for ext in ('ours', 'theirs'):
+                for mirror in (False, True):
+                    bjobs.append((name, (), (), ext, mirror))
+                    for o in (19, len(ps[0]) + 1):
+                        bjobs.append((name, (o,), (0,), ext, mirror))
         for (viols, outcome), job in zip(pool.imap(session_worker, bjobs, chunksize=8), bjobs):
             ctx.count('executions')
             ctx.count('transitions', len(job[1]) + 1)
